@@ -68,7 +68,15 @@ struct VRun {
             for (auto &it : pks[i].items) { cif_value_tp *v = NULL; rc = cif_packet_get_item(pks[i].p, UC(it.orig), &v); if (rc != CIF_OK || !v) violate("structure", "packet_item", strprintf("cif_packet_get_item -> %s for an enumerated name", rc_name(rc))); if (canon(snapshot_value(v)) != canon(it.m)) violate("structure", "packet_value", strprintf("a value of packet #%zu differs from the model %s", i, when)); }
         }
     }
-    void resync(int root) { try { roots[(size_t) root].m = snapshot_value(roots[(size_t) root].v); } catch (Violation &v) { violate("args_valid", v.sig, "after a failed allocation a value is no longer readable: " + v.detail); } }
+    // pointers into the model (the op's target) must survive a resync: same-shaped nodes are updated in place
+    static void assign_in_place(MValue &d, const MValue &s) {
+        if (d.kind == s.kind && d.elems.size() == s.elems.size() && d.entries.size() == s.entries.size()) {
+            d.text = s.text; d.quoted = s.quoted; d.has_num = s.has_num; d.number = s.number; d.su = s.su;
+            for (size_t i = 0; i < d.elems.size(); ++i) assign_in_place(d.elems[i], s.elems[i]);
+            for (size_t i = 0; i < d.entries.size(); ++i) { d.entries[i].first = s.entries[i].first; assign_in_place(d.entries[i].second, s.entries[i].second); }
+        } else d = s;
+    }
+    void resync(int root) { try { assign_in_place(roots[(size_t) root].m, snapshot_value(roots[(size_t) root].v)); } catch (Violation &v) { violate("args_valid", v.sig, "after a failed allocation a value is no longer readable: " + v.detail); } }
     MValue make_spec(Rng &r, bool simple) { return simple ? simple_value(r.next()) : gen_value(r, g); }
     cif_value_tp *build(const MValue &s) { int rc = CIF_OK; bool en = fe.enabled; fe.enabled = false; cif_value_tp *v = build_value(s, &rc); fe.enabled = en; if (!v) violate("rc", strprintf("build:%s", rc_name(rc)), strprintf("could not build %s: %s", show(s).c_str(), rc_name(rc))); return v; }
     void exec(const VOpRec &o);
@@ -371,7 +379,7 @@ RunResult VRun::run() {
     res.n_ops = (int) ops.size(); g_plan_n_ops = res.n_ops; g_plan_fault_ops.clear(); plan_ready();
     ev("run %s values: %zu ops", prop.c_str(), ops.size());
     long live0 = g_lalloc.live_blocks();
-    fe.after_failed = [&](const char *, long) { for (size_t i = 0; i < roots.size(); ++i) resync((int) i); for (auto &pk : pks) for (auto &it : pk.items) { cif_value_tp *v = NULL; if (cif_packet_get_item(pk.p, UC(it.orig), &v) == CIF_OK && v) it.m = snapshot_value(v); } };
+    fe.after_failed = [&](const char *, long) { for (size_t i = 0; i < roots.size(); ++i) resync((int) i); for (auto &pk : pks) for (auto &it : pk.items) { cif_value_tp *v = NULL; if (cif_packet_get_item(pk.p, UC(it.orig), &v) == CIF_OK && v) assign_in_place(it.m, snapshot_value(v)); } };
     try {
         std::string loc0 = EnvSeam::cur_locale(); int rnd0 = EnvSeam::cur_rounding();
         for (size_t i = 0; i < ops.size(); ++i) {
